@@ -27,6 +27,7 @@ CLAIMED = {
             "mutated => paired change event, no event without mutation; guard/store/event value agreement; the group "
             "re-evaluation and contact-refresh pairs in the engine. Also: an Apply that empties a list and rebuilds it confirms every change report by a before/after comparison (reset-and-rebuild); the Contact methods that take a URN compare by Identity() on both sides everywhere and ContactURN.Equal compares the complete raw URN. "
             "Round 3: the contact_refreshed guard compares with the current contact of the session being updated; pointer-equality helpers used as Apply guards answer true for (nil, nil). "
+            "Round 6: inside a list type of package flows elements are identified by UUID everywhere, never by pointer (sibling agreement). "
             "Does not decide that replaying events reproduces "
             "the contact value, nor value-level idempotence beyond the reset-and-rebuild shape.",
             "who-may-call + path-sensitive typestate dataflow over go/ssa (ESP-style), value-provenance comparison",
@@ -42,6 +43,7 @@ CLAIMED = {
             "Round 3: a category's exit is validated against the node's exits (imported from C01 R10); SwitchRouter.Validate does not accept a laxer spelling of Case.Type than its consumers compare. "
             "Round 4: a session is only resumed at a node that waits (imported from C10 R3). "
             "Round 5: every path through the run context that ends at the contact's fields, computed from the Context map literals, is a row of inspect.fieldRefPaths (found and fixed F31). "
+            "Round 6: the extraction-chain rule also covers the asset-reference walk (dependencies, walk, extractAssetReferences). "
             "Does not relate inspection to actual executions.",
             "table agreement between sibling implementations (saves vs declares) via SSA provenance, struct-tag audit, control-dependence check",
             "DESIGN.md §4 C20"),
@@ -74,6 +76,7 @@ CLAIMED = {
             "wildcards agree between producer and consumer. Also: a required action field with an enumerating validator is written as a constant or defaulted to one on the empty edge at every call site; a truncation guard measures the value it cuts with a bound not above the limit; every slice/map-of-struct-pointers member of a definition struct carries dive,required (null elements are rejected at load). "
             "Round 3: urnscheme is treated as an enumerating validator (constant, or under urns.IsValidScheme of the same value). "
             "Round 4: C11 R4 imported (every template rewritten, result kept); digit range tests start at '0' (lint). "
+            "Round 6: where the legacy migration de-duplicates by a text-keyed map the key looked up, inserted and given to the created object is one value. "
             "Does not decide that migrated definitions load (whether a required text value without an enumerating validator can be empty is not decided), graph preservation, idempotence as a value-level fact, or equivalence of rewritten templates.",
             "registry/table agreement (AST constants), SSA shape check of migrate(), guard-dominance (control dependence) for nil/length/type tests, interprocedural nullable-map analysis",
             "DESIGN.md §4 C16"),
@@ -85,6 +88,7 @@ CLAIMED = {
             "provenance; terminal push, failure bubbling and failed-action-stops-node. Also: the terminal session status is stored only with no active parent left or after all runs were exited; the owners of session.status include unexported helpers only they call. "
             "Round 3: Session.PushFlow is the point of no return (no Run.Exit reachable after it in its two callers); baseRouter.validate compares a category's exit with the node's exits and, evaluated for a set exit that is not among them, returns an error. "
             "Round 5: after failRun(r) the main loop goes on from r on every path back to its header (failure bubbles from the run that was failed). "
+            "Round 6: every run created with a parent in the main loop is preceded by the exclusion of a failed parent (a failed run gets no child; found and fixed F33). "
             "Does not perform the induction over "
             "histories (waiting <=> exactly one waiting run, ancestors active, path is a walk for every graph).",
             "who-may-write + forward must-dataflow over go/ssa, variable-pair typestate over go/cfg, path-sensitive typestate",
@@ -140,6 +144,7 @@ CLAIMED = {
             "Round 3: the two calendar days a date test compares are taken in the same timezone; translated case arguments are used only when they are as many as the base arguments. "
             "Round 4: a candidate that fails the comparison does not end the search loop; a parentless location lookup is decided by the emptiness of the text naming the level above. "
             "Round 5: no slice or map is built and never read in the router packages (lint). "
+            "Round 6: in SwitchRouter.Route the call of matchCase dominates the category decision (no operand skips the cases). "
             "Does not decide what each test function matches.",
             "SSA value-provenance and guard-dominance checks on the router functions",
             "DESIGN.md §4 C07"),
@@ -153,6 +158,7 @@ CLAIMED = {
             "Round 3: members of shared objects that can hold X values are assigned eagerly built values only; SetDeprecated is never applied to a value that may be a package-level variable (followed through callee returns). "
             "Round 4: no package-level variable has a library type documented as unsafe for concurrent use. "
             "Round 5: methods of the lazily initialised X types write only the known lazy fields of their receiver. "
+            "Round 6: no append writes into a re-slice of a slice read from a field, a map element or the uncopied result of a module function. "
             "Does not observe races, and does not cover third-party packages or "
             "the host's asset source.",
             "type-closure of shared state + interprocedural root-sensitive write-effect summaries (go/ssa + CHA), lock-region dominance",
@@ -166,6 +172,7 @@ CLAIMED = {
             "constant its constructors write. Also: event fields the reader requires get a guarded non-empty value; environments (envs) are covered like the other persisted types. "
             "Round 3: a pointer field the read side restores only under a presence test is dereferenced by the marshal side only under a nil test. "
             "Round 4: the validate tag on an asset reference's UUID accepts whatever the asset's own definition accepts for that UUID type; the index obligations over the reader packages are imported from C05 R7. "
+            "Round 6: a text field of persisted run state that the reader constrains (validate tag beyond required) is not fed run-time text, except behind a constant regexp whose language lies inside the constraint's (found and fixed F32). "
             "Does not decide that a restored session behaves "
             "identically (value-level), nor that re-derived values equal the live ones.",
             "marshal/read field-coverage and envelope symmetry (sibling-table agreement over go/ssa field accesses), dominance",
@@ -192,7 +199,7 @@ CLAIMED = {
             "from the language actually used. Also: an IVR message's locale is the language of the very lookup whose text is the message content. "
             "Round 3: a saved result always replaces the stored one (imported from C07 R5) and the merged environment is not a stale cache (imported from C19 R4). "
             "Round 4: translated case arguments compared by count with the base arguments (imported from C07 R9); a translation lookup never depends on a test of its own base value. "
-            "Does not enumerate the outcomes of all configurations.",
+            "Round 6: no language test decides whether a translation is looked up (the choice of language is getText's alone). Does not enumerate the outcomes of all configurations.",
             "SSA shape/provenance checks of the fallback functions, struct-tag vs call-site table agreement",
             "DESIGN.md §4 C18"),
     "C15": ("Finite-domain abstract interpretation of the contact-query evaluator (exhaustive over the abstract domains): "
@@ -206,6 +213,7 @@ CLAIMED = {
             "Round 3: the Go types QueryValue can return are collected per field type by path enumeration (fall-through returns included); presence guards in QueryProperty test the field the value comes from. "
             "Round 4: presence guards also in FieldValue.QueryValue; the contact's fields are consulted only for properties that are neither attributes nor URN schemes. "
             "Round 5: both operands of textComparison pass the same normalising calls. "
+            "Round 6: the node whose children Simplify splices into the parent is the node whose operator it compared. "
             "Does not decide date parsing of query values, tokenisation, or the comparison primitives themselves.",
             "finite-domain abstract interpretation (path typestate engine with abstract transfer tables), sibling-table agreement",
             "DESIGN.md §4 C15"),
@@ -220,6 +228,7 @@ CLAIMED = {
             "Round 3: every return of ContactQueryEscaping is strconv.Quote of its argument, and inside Evaluator.Template the escaping call depends only on escaping != nil, the token type and the error test. "
             "Round 4: the string evaluator under R3 was made sound for unknown strings and joins of mixed element forms. "
             "Round 5: the arms that reject URN conditions under redaction exempt the same conditions (sibling agreement). "
+            "Round 6: the node whose children Simplify splices into the parent is the node whose operator it compared (shared with C15 R5). "
             "Does not decide structural identity of re-parsed "
             "queries for all inputs.",
             "value provenance over go/ssa, regular-language (NFA->DFA) reasoning on the grammar's lexer rule, constant-pattern analysis, table agreement",
@@ -277,6 +286,7 @@ CLAIMED = {
             "Round 3: an XDateTime method that converts its receiver with In() prints no component of the unconverted receiver; XText marshals through the JSON encoder. "
             "Round 4: the day/month/year validity check in envs uses the year the date is built from. "
             "Round 5: the upper-bound tests in front of NewTimeOfDay let 59 through for minutes and seconds. "
+            "Round 6: no number takes a detour through float64 in the value packages; a century is added to a parsed year only under a test of the matched text's length. "
             "Does not decide the library arithmetic, DST folds, "
             "second-granular UTC offsets or non-am/pm locales.",
             "writer/reader table agreement by constant evaluation of the source's own patterns and layouts; regular-language inclusion; finite-domain evaluation of an SSA fragment; go/ssa provenance",
